@@ -329,7 +329,23 @@ def print_assumptions(pid, outdir):
     return res, bad
 
 
-def run_harness(pid, tier, seed, outdir, replay=None, mode="check", timeout=3000):
+def run_harness(pid, tier, seed, outdir, replay=None, mode="check", timeout=None):
+    """Runs the Go harness. A run that hits the go-test timeout is retried once: under Go 1.25's testing/synctest a
+    sync.WaitGroup.Wait inside a bubble is very occasionally not registered as durably blocking, which stalls the
+    bubble's virtual clock for good (observed once in ~10^5 flushes; unrelated to the code under test)."""
+    if timeout is None:
+        timeout = 900 if tier == "quick" else 3000
+    for attempt in (1, 2):
+        rc, out = _run_harness_once(pid, tier, seed, outdir, replay, mode, timeout)
+        if rc != 0 and ("panic: test timed out" in out or "test timed out after" in out) and attempt == 1:
+            for f in glob.glob(os.path.join(outdir, "cases_*.v")) + glob.glob(os.path.join(outdir, "impl.json")):
+                os.remove(f)
+            continue
+        return rc, out
+    return rc, out
+
+
+def _run_harness_once(pid, tier, seed, outdir, replay, mode, timeout):
     env = goenv()
     env.update({"VERIF_OUT": outdir, "VERIF_SEED": str(seed), "VERIF_TIER": tier, "VERIF_MODE": mode,
                 "VERIF_DIR": VERIF})
@@ -514,12 +530,11 @@ def check(pid, tier, replay=None):
                             "how_to_replay": "./check %s --replay %s" % (pid, rp)})
             viol_lines.append("VIOLATION property=%s replay=%s" % (pid, rp))
             nviol += 1
-    if new_oracle:
-        notes.extend(broken)
-    if (mism or modelviol or broken) and not new_oracle:
+    have_failing_input = bool(new_oracle)
+    if (mism or modelviol or broken):
         # the tie or a proof broke but no failing input on the implementation: widen the search once
         extra = {}
-        if (mism or broken) and not replay and os.environ.get("VERIF_NO_SEARCH") != "1":
+        if (mism or broken) and not have_failing_input and not replay and os.environ.get("VERIF_NO_SEARCH") != "1":
             sdir = os.path.join(outdir, "search")
             os.makedirs(sdir, exist_ok=True)
             rc3, sout = run_harness(pid, tier, seed + 7919, sdir, mode="search")
@@ -554,6 +569,10 @@ def check(pid, tier, replay=None):
             v = found[0]
             rec.update({"kind": "property-violated-on-implementation", "key": v.get("key"), "what": v.get("what"),
                         "case": v.get("case")})
+            write_json(rp, rec)
+            viol_lines.append("VIOLATION property=%s replay=%s" % (pid, rp))
+        elif have_failing_input:
+            rec["kind"] = "tie-or-proof-broken (failing inputs are in the other replay files of this run)"
             write_json(rp, rec)
             viol_lines.append("VIOLATION property=%s replay=%s" % (pid, rp))
         else:
